@@ -58,7 +58,8 @@ def arrays(draw, max_models=6, need_models=True):
             'distance_kpc': draw(st.sampled_from([1., 1., 0.14, 8.5])), 'ap_unit': draw(st.sampled_from(['au', 'au', 'pc', 'cm'])),
             'err_other_unit': draw(st.booleans()),
             # what else is in the directory the file is written to: nothing, or an older compressed copy <name>.gz
-            'gz_sibling': draw(st.integers(0, 3)) == 0}
+            'gz_sibling': draw(st.integers(0, 3)) == 0,
+            'ap_store': draw(st.sampled_from(['asc', 'asc', 'desc', 'rot']))}
 
 
 def err_unit_of(case):
@@ -73,6 +74,35 @@ def ap_quantity(case, nap):
     from astropy import units as u
     aps = np.array(case['apertures'][:nap]) * u.au
     return aps if case['ap_unit'] == 'au' else aps.to({'pc': u.pc, 'cm': u.cm}[case['ap_unit']])
+
+
+def stored_view(case):
+    """The case with its aperture axis in the order in which it is STORED in the objects that are written (ascending,
+    descending or rotated): nothing promises that apertures are tabulated in increasing order."""
+    how = case.get('ap_store', 'asc')
+    nap = len(case['val'][0])
+    if how == 'asc' or nap < 2 or not case['with_ap']:
+        return case
+    perm = list(range(nap))[::-1] if how == 'desc' else list(range(1, nap)) + [0]
+    c = dict(case)
+    c['apertures'] = [case['apertures'][a] for a in perm] + list(case['apertures'][nap:])
+    c['val'] = [[mod[a] for a in perm] for mod in case['val']]
+    c['unc'] = [[mod[a] for a in perm] for mod in case['unc']]
+    return c
+
+
+def ap_positions(got_au, stored_au, what, sig):
+    """position in the apertures READ BACK of every stored aperture (cells are compared by aperture value, so a reader that
+    normalises the order of the axis is not at fault - one that mixes up the cells is)"""
+    pos = []
+    for w in stored_au:
+        hits = [j for j, g in enumerate(got_au) if close(g, w, 1e-12)]
+        if len(hits) != 1:
+            fail('%s: apertures %r read back, %r stored' % (what, list(got_au), list(stored_au)), sig)
+        pos.append(hits[0])
+    if len(got_au) != len(stored_au):
+        fail('%s: apertures %r read back, %r stored' % (what, list(got_au), list(stored_au)), sig)
+    return pos
 
 
 def close(a, b, rel=1e-13):
@@ -112,9 +142,10 @@ def run_sed(case, ctx):
     from sedfitter.sed import SED
     un = unit_of(case['unit'])
     sidx = supplied_order(case)
+    case = stored_view(case)
     nap = len(case['val'][0]) if case['with_ap'] else 1
     labels = {'unit_' + case['unit'], 'supplied_' + case['supplied'], 'read_' + case['order'],
-              'with_ap' if case['with_ap'] else 'no_ap'}
+              'with_ap' if case['with_ap'] else 'no_ap', 'apertures_stored_' + case.get('ap_store', 'asc')}
     s = SED()
     with must_succeed('building an SED'):
         s.name = case['names'][0]
@@ -146,7 +177,10 @@ def run_sed(case, ctx):
                 fail('%s: name / distance changed (%r, %r)' % (what, r.name, r.distance), 'c12:sed_meta')
             if r.flux.shape != (nap, len(idx)) or r.error.shape != (nap, len(idx)):
                 fail('%s: flux shape %r' % (what, r.flux.shape), 'c12:sed_shape')
-            fv, ev = r.flux.to(un).value, r.error.to(un).value
+            fv, ev = np.asarray(r.flux.to(un).value), np.asarray(r.error.to(un).value)
+            if case['with_ap']:
+                pos = ap_positions(r.apertures.to(u.au).value, case['apertures'][:nap], what, 'c12:sed_apertures')
+                fv, ev = fv[pos, :], ev[pos, :]
             for a in range(nap):
                 for p, i in enumerate(idx):
                     if not close(fv[a][p], case['val'][0][a][i]):
@@ -155,10 +189,6 @@ def run_sed(case, ctx):
                     if not close(ev[a][p], case['unc'][0][a][i]):
                         fail('%s, read with order=%s: error at %r micron (aperture %d) is %r, stored %r' % (
                             what, order, case['wav'][i], a, ev[a][p], case['unc'][0][a][i]), 'c12:sed_error_at_wrong_wavelength')
-            if case['with_ap']:
-                got = r.apertures.to(u.au).value
-                if len(got) != nap or any(not close(g, w, 1e-12) for g, w in zip(got, case['apertures'])):
-                    fail('%s: apertures %r, stored %r' % (what, list(got), case['apertures'][:nap]), 'c12:sed_apertures')
         # requesting the other order ONLY reverses the spectral axis - also when a flux unit of another family is
         # requested (the default unit_flux of SED.read is erg/cm^2/s whatever the file holds)
         others = [x for x in UNITS if x != case['unit']]
@@ -197,10 +227,11 @@ def run_cube(case, ctx):
     un = unit_of(case['unit'])
     sidx = supplied_order(case)
     nm = len(case['names'])
+    case = stored_view(case)
     nap = len(case['val'][0]) if case['with_ap'] else 1
     labels = {'unit_' + case['unit'], 'supplied_' + case['supplied'], 'read_' + case['order'],
               'with_ap' if case['with_ap'] else 'no_ap', 'with_unc' if case['with_unc'] else 'no_unc',
-              'memmap' if case['memmap'] else 'no_memmap'}
+              'memmap' if case['memmap'] else 'no_memmap', 'apertures_stored_' + case.get('ap_store', 'asc')}
     c = SEDCube()
     with must_succeed('building an SEDCube'):
         c.names = np.array(case['names'])
@@ -229,9 +260,9 @@ def run_cube(case, ctx):
             if case['with_unc'] != (uu is not None):
                 fail('%s: uncertainties %s' % (what, 'invented' if uu is not None else 'lost'), 'c12:cube_unc_presence')
             if case['with_ap']:
-                got = r.apertures.to(u.au).value
-                if len(got) != nap or any(not close(g, w, 1e-12) for g, w in zip(got, case['apertures'])):
-                    fail('%s: apertures %r' % (what, list(got)), 'c12:cube_apertures')
+                pos = ap_positions(r.apertures.to(u.au).value, case['apertures'][:nap], what, 'c12:cube_apertures')
+                vv = vv[:, pos, :]
+                uu = None if uu is None else uu[:, pos, :]
             elif r.apertures is not None:
                 fail('%s: apertures appeared: %r' % (what, r.apertures), 'c12:cube_apertures')
             for m in range(nm):
@@ -306,8 +337,9 @@ def run_conv(case, ctx):
     from sedfitter.convolved_fluxes import ConvolvedFluxes
     un = unit_of(case['unit'])
     nm = len(case['names'])
+    case = stored_view(case)
     nap = len(case['val'][0]) if case['with_ap'] else 1
-    labels = {'unit_' + case['unit'], 'with_ap' if case['with_ap'] else 'no_ap'}
+    labels = {'unit_' + case['unit'], 'with_ap' if case['with_ap'] else 'no_ap', 'apertures_stored_' + case.get('ap_store', 'asc')}
     cf = ConvolvedFluxes()
     with must_succeed('building ConvolvedFluxes'):
         cf.model_names = np.array(case['names'])
@@ -326,22 +358,25 @@ def run_conv(case, ctx):
             fail('convolved fluxes: names %r' % list(r.model_names), 'c12:conv_names')
         if not close(r.central_wavelength.to(u.micron).value, case['wav'][0], 1e-14):
             fail('convolved fluxes: wavelength %r' % r.central_wavelength, 'c12:conv_wavelength')
+        pos = list(range(nap))
         if case['with_ap']:
-            got = r.apertures.to(u.au).value
-            if len(got) != nap or any(not close(g, w, 1e-13) for g, w in zip(got, case['apertures'])):
-                fail('convolved fluxes: apertures %r AU, stored %r AU' % (list(got), case['apertures'][:nap]), 'c12:conv_apertures')
+            pos = ap_positions(r.apertures.to(u.au).value, case['apertures'][:nap], 'convolved fluxes', 'c12:conv_apertures')
         elif r.apertures is not None:
             fail('convolved fluxes: apertures appeared', 'c12:conv_apertures')
         fv, ev = np.asarray(r.flux.to(un).value), np.asarray(r.error.to(un).value)
-        if fv.shape != (nm, nap):
+        if fv.shape != (nm, nap) or ev.shape != (nm, nap):
             fail('convolved fluxes: shape %r' % (fv.shape,), 'c12:conv_shape')
+        fv, ev = fv[:, pos], ev[:, pos]
         for m in range(nm):
             for a in range(nap):
                 if not close(fv[m][a], case['val'][m][a][0], 1e-15) or not close(ev[m][a], case['unc'][m][a][0], 1e-13):
                     fail('convolved fluxes: (%s, aperture %d) reads %r +- %r, stored %r +- %r' % (
                         case['names'][m], a, fv[m][a], ev[m][a], case['val'][m][a][0], case['unc'][m][a][0]), 'c12:conv_cell')
         t = pkgio.read_convolved(path)
-        if t['names'] != case['names'] or any(not close(t['flux'][m][a], case['val'][m][a][0], 1e-15)
+        tpos = list(range(nap))
+        if case['with_ap'] and t['apertures'] is not None and str(t['aperture_unit']).lower() == 'au':
+            tpos = ap_positions(list(t['apertures']), case['apertures'][:nap], 'written convolved-flux file', 'c12:conv_file')
+        if t['names'] != case['names'] or any(not close(t['flux'][m][tpos[a]], case['val'][m][a][0], 1e-15)
                                                for m in range(nm) for a in range(nap)):
             fail('written convolved-flux file does not hold the stored values row by row', 'c12:conv_file')
     return labels, nm >= 2
